@@ -490,3 +490,79 @@ def meta_stale(ctx: Ctx) -> None:
                         sel=f"stale:{k.arg}:{ctx.anon(f, c.func, 30)}",
                     )
     ctx.need(n >= 3, f"only {n} declarations read from an operand found")
+
+
+def _canon_value(fl, e: ast.AST, at: int, depth: int = 3):
+    """a value followed through plain copies (`s = x.shape`) to what it is"""
+    if isinstance(e, ast.Name) and depth > 0:
+        ds = list(fl.rdefs(e.id, at))
+        if len(ds) == 1 and ds[0].kind == "assign" and ds[0].value is not None and isinstance(ds[0].value, (ast.Name, ast.Attribute, ast.Tuple)):
+            return _canon_value(fl, ds[0].value, ds[0].node, depth - 1)
+        return ("name", e.id, tuple(sorted((s.node, s.kind) for s in ds)))
+    return ("expr", unparse(e, 200))
+
+
+@rule("META-PAIR-1", props=["C12"], floor=6)
+def meta_pair(ctx: Ctx) -> None:
+    """where an operation is declared with a shape and with chunks that were normalised
+    (normalize_chunks(c, shape=S')), S' is the declared shape itself: chunks normalised against
+    another shape (the operand's instead of the result's, a stale variable) do not add up to
+    the declared shape — the array then reports a grid it does not have"""
+    repo = ctx.repo
+    n = 0
+    for d in repo.functions():
+        mq = d.module.qual
+        if mq.startswith(("cubed.vendor", "cubed.diagnostics", "cubed.tests")):
+            continue
+        fl = cfg = None
+        for c in d.own_nodes():
+            if not isinstance(c, ast.Call):
+                continue
+            bound: dict[str, ast.AST] = {}
+            for t in repo.resolve_call(c, d, d.module):
+                if t.kind == "def" and t.ref.is_func:
+                    ps = t.ref.params
+                    if ps and ps[0] in ("self", "cls"):
+                        ps = ps[1:]
+                    for i, a in enumerate(c.args):
+                        if i < len(ps) and not isinstance(a, ast.Starred):
+                            bound[ps[i]] = a
+                    break
+            for k in c.keywords:
+                if k.arg:
+                    bound[k.arg] = k.value
+            ch = bound.get("chunks") or bound.get("chunkss")
+            sh = bound.get("shape") or bound.get("shapes")
+            if ch is None or sh is None:
+                continue
+            if fl is None:
+                fl, cfg = flow_of(repo, d), cfg_of(d)
+            if not cfg.has(c):
+                continue
+            at = cfg.node_of(c)
+            pairs = list(zip(sh.elts, ch.elts)) if isinstance(sh, ast.List) and isinstance(ch, ast.List) and len(sh.elts) == len(ch.elts) else [(sh, ch)]
+            for s_, c_ in pairs:
+                if not isinstance(c_, ast.Name):
+                    continue
+                for ds in fl.rdefs(c_.id, at):
+                    v = ds.value
+                    if isinstance(v, ast.Call) and isinstance(v.func, ast.Name) and v.func.id == "to_chunksize" and v.args and isinstance(v.args[0], ast.Call):
+                        v = v.args[0]
+                    if not (isinstance(v, ast.Call) and any(t.kind == "def" and t.ref.name == "normalize_chunks" for t in repo.resolve_call(v, d, d.module))):
+                        continue
+                    ns = kwarg(v, "shape") or (v.args[1] if len(v.args) > 1 else None)
+                    if ns is None:
+                        continue
+                    n += 1
+                    a, b = _canon_value(fl, s_, at), _canon_value(fl, ns, ds.node)
+                    ok = a == b
+                    ctx.ob(
+                        d,
+                        c,
+                        ok,
+                        f"`{unparse(c.func, 30)}(…)`: the declared chunks were normalised against the declared shape `{unparse(s_, 30)}`"
+                        + ("" if ok else f" — they were normalised against `{unparse(ns, 30)}`, another value: the chunks need not add up to the shape the array reports"),
+                        sel=f"pair:{ctx.anon(d, c.func, 30)}:{ctx.anon(d, ns, 30)}",
+                        firm=True,
+                    )
+    ctx.need(n >= 6, f"only {n} (shape, normalised chunks) declarations found")
